@@ -3,7 +3,7 @@
    hypernym graph, [cls] the part-of-speech class with satellite adjectives
    folded into adjectives (negative = not an IC part of speech), a corpus word
    is its count and wordnet.synsets(word). *)
-From Coq Require Import ZArith QArith List Bool.
+From Coq Require Import ZArith QArith List Bool Permutation.
 Import ListNotations.
 Require Import WnV.Base.Sx WnV.Model.Taxonomy WnV.Model.Ic WnV.Proofs.TaxSpec WnV.Proofs.IcProofs WnV.Proofs.IcConserve.
 
@@ -77,6 +77,29 @@ Theorem C15_total_undistributed : forall hyp cls fuel corpus ev smoothing k,
                                        * inject_Z (cw_count w)) corpus).
 Proof. exact total_undistributed. Qed.
 Print Assumptions C15_total_undistributed.
+
+(* (4c) unknown words are ignored (the run over the corpus equals the run without them, outcome
+   included), and the order in which the corpus words are listed does not matter *)
+Theorem C15_unknown_words_ignored : forall hyp cls fuel d corpus,
+    compute_events hyp cls fuel d corpus = compute_events hyp cls fuel d (filter known corpus).
+Proof. exact unknown_words_ignored. Qed.
+Print Assumptions C15_unknown_words_ignored.
+
+Theorem C15_corpus_order_irrelevant_syn : forall hyp cls fuel d corpus corpus' ev ev' smoothing t,
+    compute_events hyp cls fuel d corpus = Ok ev ->
+    compute_events hyp cls fuel d corpus' = Ok ev' ->
+    Permutation corpus corpus' ->
+    entry smoothing ev (Syn t) == entry smoothing ev' (Syn t).
+Proof. exact corpus_order_irrelevant_syn. Qed.
+Print Assumptions C15_corpus_order_irrelevant_syn.
+
+Theorem C15_corpus_order_irrelevant_total : forall hyp cls fuel d corpus corpus' ev ev' smoothing k,
+    compute_events hyp cls fuel d corpus = Ok ev ->
+    compute_events hyp cls fuel d corpus' = Ok ev' ->
+    Permutation corpus corpus' -> (0 <= k)%Z ->
+    entry smoothing ev (Total k) == entry smoothing ev' (Total k).
+Proof. exact corpus_order_irrelevant_total. Qed.
+Print Assumptions C15_corpus_order_irrelevant_total.
 
 (* (5) weights never decrease going up the taxonomy *)
 Theorem C15_monotone : forall hyp cls fuel distribute corpus ev smoothing t u,
